@@ -114,7 +114,7 @@ def _verify_call(root, action):
         md = Metadata.load(os.path.join(vroot, "root.layout"))
         keys = json.load(open(os.path.join(vroot, "keys.json")))
         return vl.in_toto_verify(md, keys, link_dir_path=os.path.join(vroot, "links"), persist_inspection_links=False,
-                                 inspect_timeout=3 if action == "sleep" else 30)
+                                 inspect_timeout=2 if action == "sleep" else 30)
     return run
 
 
